@@ -4,9 +4,11 @@ import (
 	"bytes"
 	"encoding/binary"
 	"fmt"
+	"io"
 	"reflect"
 	"runtime"
 	"runtime/debug"
+	"testing/iotest"
 
 	p9p "github.com/frobnitzem/go-p9p"
 	"pgregory.net/rapid"
@@ -170,7 +172,11 @@ func measure(f func()) (alloc uint64, pv any, stack []byte) {
 func decodeOnce(asDir bool, in []byte) (fc *p9p.Fcall, d *p9p.Dir, err error) {
 	if asDir {
 		d = new(p9p.Dir)
-		err = p9p.DecodeDir(codec, bytes.NewReader(in), d)
+		var rd io.Reader = bytes.NewReader(in)
+		if len(in)%3 == 1 {
+			rd = iotest.OneByteReader(rd) // DecodeDir takes any io.Reader: one that hands out a byte at a time
+		}
+		err = p9p.DecodeDir(codec, rd, d)
 		return nil, d, err
 	}
 	fc = new(p9p.Fcall)
